@@ -30,6 +30,14 @@ class SimBudgetExceeded(Exception):
     """virtual-time or event budget of the history exhausted."""
 
 
+class SimLivelock(SimBudgetExceeded):
+    """the loop keeps running callbacks although virtual time cannot advance: some task spins without ever
+    waiting for a timer or the network (e.g. `while True: await already_done_future`)."""
+
+
+SPIN_LIMIT = 300_000     # loop iterations at one frozen virtual instant
+
+
 class VClock:
     def __init__(self, start=1000.0):
         self.now = start
@@ -128,6 +136,8 @@ class SimLoop(asyncio.SelectorEventLoop):
         if net is not None:
             net.loop = self
         self.events = 0           # network deliveries + timer firings
+        self._spin_at = None
+        self._spin_n = 0
         self.max_events = max_events
         self._event_actions = {}  # k -> [callables]
         self.tasks = []           # weak-ish registry (tasks kept until pruned)
@@ -148,6 +158,32 @@ class SimLoop(asyncio.SelectorEventLoop):
             frames = traceback.extract_tb(exc.__traceback__)
             in_harness = bool(frames) and "/vf/" in frames[-1].filename
         self.callback_errors.append((context.get("message"), repr(exc), in_harness))
+
+    def _run_once(self):
+        # livelock detector: iterations of the loop during which the virtual clock did not move
+        now = self.clock.now
+        if now == self._spin_at:
+            self._spin_n += 1
+            if self._spin_n > SPIN_LIMIT and self._vsel.abort is None:
+                self._spin_n = 0
+                raise SimLivelock(f"{SPIN_LIMIT} loop iterations at virtual time {now:.6f} without progress: "
+                                  f"a task is spinning ({self._spin_who()})")
+        else:
+            self._spin_at = now
+            self._spin_n = 0
+        super()._run_once()
+
+    def _spin_who(self):
+        try:
+            names = []
+            for h in list(self._ready)[:4]:
+                cb = getattr(h, "_callback", None)
+                task = getattr(cb, "__self__", None)
+                coro = getattr(task, "get_coro", lambda: None)()
+                names.append(getattr(coro, "__qualname__", None) or getattr(cb, "__qualname__", repr(cb))[:80])
+            return ", ".join(str(n) for n in names)
+        except Exception:  # noqa: BLE001
+            return "?"
 
     def set_time_budget(self, virtual_s):
         self._vsel.max_time = self.clock.now + virtual_s
